@@ -107,6 +107,11 @@ func runC01(c *eng.Ctx, tier string) {
 						c.Ok("R-C01-1", s.Fn, s.In.Pos(), siteStr, "List: name listing needs no per-name check (results filtered, R-C01-4)")
 						continue
 					}
+					// (the name listing written out in List itself: only the keys of the map leave it)
+					if s.Call == nil && onlyKeysLeave(s.In) {
+						c.Ok("R-C01-1", s.Fn, s.In.Pos(), siteStr, "List: only the names (keys) of the secrets map are read (results filtered, R-C01-4)")
+						continue
+					}
 					c.Bad("R-C01-1", s.Fn, s.In.Pos(), siteStr, "List may only list names unfiltered; every per-secret read needs Allow(info,name)", "state access without a name")
 					continue
 				}
@@ -574,12 +579,18 @@ func c01Identity(c *eng.Ctx, d *dbInfo) {
 				return
 			}
 			okk := false
-			if len(call.Call.Args) == 2 {
-				if rq, isID := identitySource(getIdentity, call.Call.Args[1], 0); isID && eng.Origin(rq) == ssa.Value(f.Params[2]) {
+			var idArg ssa.Value
+			for _, a := range call.Call.Args {
+				if eng.IsNamed(a.Type(), "db", "Caller") {
+					idArg = a
+				}
+			}
+			if len(call.Call.Args) == 2 && idArg != nil {
+				if rq, isID := identitySource(getIdentity, idArg, 0); isID && eng.Origin(rq) == ssa.Value(f.Params[2]) {
 					okk = true
 				}
 			}
-			c.Check(okk, "R-C01-6", f, in.Pos(), "serveJSON: fn(req, id)", "id is result 0 of s.getIdentity(r) for serveJSON's own request r", "id argument is "+eng.ValStr(call.Call.Args[len(call.Call.Args)-1]))
+			c.Check(okk, "R-C01-6", f, in.Pos(), "serveJSON: fn(req, id)", "id is result 0 of s.getIdentity(r) for serveJSON's own request r", "id argument is "+eng.ValStr(idArg))
 		})
 	}
 	// no db.Caller built outside getIdentity in server/cmd: every store to a
@@ -836,6 +847,12 @@ func handlerParams(f *ssa.Function) (req, id *ssa.Parameter) {
 	if len(ps) < 2 {
 		return nil, nil
 	}
+	// (by type: the identity is the db.Caller, the request is the other one)
+	for i, q := range ps[:2] {
+		if eng.IsNamed(q.Type(), "db", "Caller") {
+			return ps[1-i], q
+		}
+	}
 	return ps[0], ps[1]
 }
 
@@ -1012,4 +1029,72 @@ func handlerFactory(h *ssa.Function) (lit *ssa.Function, idx int, ok bool) {
 		}
 	}
 	return nil, 0, false
+}
+
+// onlyKeysLeave: in reads a map (a load, or the address it is loaded from)
+// and every use of the loaded map hands out its keys only: maps.Keys, len, or
+// a range loop whose value variable is unused.
+func onlyKeysLeave(in ssa.Instruction) bool {
+	var loads []ssa.Value
+	switch x := in.(type) {
+	case *ssa.UnOp:
+		loads = append(loads, x)
+	case *ssa.FieldAddr:
+		for _, r := range *x.Referrers() {
+			if u, ok := r.(*ssa.UnOp); ok && u.Op == token.MUL {
+				loads = append(loads, u)
+			} else if _, isDbg := r.(*ssa.DebugRef); !isDbg {
+				return false
+			}
+		}
+	default:
+		return false
+	}
+	if len(loads) == 0 {
+		return false
+	}
+	for _, v := range loads {
+		if _, isMap := v.Type().Underlying().(*types.Map); !isMap || v.Referrers() == nil {
+			return false
+		}
+		for _, r := range *v.Referrers() {
+			switch u := r.(type) {
+			case *ssa.DebugRef:
+			case *ssa.Call:
+				if args, isLen := eng.BuiltinCall(u, "len"); isLen && len(args) == 1 {
+					continue
+				}
+				cal := u.Call.StaticCallee()
+				if cal == nil {
+					return false
+				}
+				o := cal
+				if cal.Origin() != nil {
+					o = cal.Origin()
+				}
+				if o.Pkg == nil || o.Pkg.Pkg.Path() != "maps" || o.Name() != "Keys" {
+					return false
+				}
+			case *ssa.Range:
+				for _, nx := range *u.Referrers() {
+					n, isNext := nx.(*ssa.Next)
+					if !isNext {
+						return false
+					}
+					for _, ex := range *n.Referrers() {
+						if e, isEx := ex.(*ssa.Extract); isEx && e.Index == 2 && e.Referrers() != nil {
+							for _, rr := range *e.Referrers() {
+								if _, isDbg := rr.(*ssa.DebugRef); !isDbg {
+									return false
+								}
+							}
+						}
+					}
+				}
+			default:
+				return false
+			}
+		}
+	}
+	return true
 }
